@@ -44,7 +44,7 @@ def all_evaluations(world):
 
 
 def thrice(world, ev, fresh=False):
-    """child: deliver `ev` three times (on a fresh instance if asked) and
+    """child: deliver `ev` four times (on a fresh instance if asked) and
     report the digest after each"""
     def child():
         if fresh:
@@ -52,7 +52,7 @@ def thrice(world, ev, fresh=False):
         d0 = state_digest(world)
         out = {'d0': d0, 'steps': []}
         prev = d0
-        for i in range(3):
+        for i in range(4):
             rec = world.run(ev[0], ev[1], record=False)
             pending = len(rec['pending'])
             drained = world.drain()
@@ -117,14 +117,18 @@ def explore_state(world, acc, rng, max_evals=8):
         acc.nontrivial('%s|%s' % (ev[0], '>'.join(sts)))
         w = dict(base_witness, evaluation=list(ev),
                  steps=a['steps'])
-        third = a['steps'][2]
+        # the statement: one evaluation plus "at most two more" reach a
+        # stable state, so the FOURTH identical evaluation must be a no-op
+        third = a['steps'][3]
         if third['diff']:
             acc.violation(
-                'third-identical-evaluation-still-changes-the-state',
-                '%s repeated: statuses %s; third repeat changed %s'
+                'fourth-identical-evaluation-still-changes-the-state',
+                '%s repeated: statuses %s; fourth repeat changed %s'
                 % (list(ev), sts, str(third['diff'])[:300]), w)
+        if a['steps'][2]['diff']:
+            acc.count('c10_third_evaluation_still_changed_something')
         # a command whose effect is observed again without a new command
-        for i in (1, 2):
+        for i in (1, 2, 3):
             if a['steps'][i]['status'] in COMMAND_STATUSES and \
                     a['steps'][i - 1]['status'] in COMMAND_STATUSES:
                 acc.violation(
@@ -149,6 +153,6 @@ def explore_state(world, acc, rng, max_evals=8):
                 dict(w, fresh={'status': b['status'], 'diff': d}))
         elif len(acc.samples) < 5:
             acc.sample({'config': world.config(), 'evaluation': list(ev),
-                        'statuses_of_three_repeats': sts,
-                        'third_repeat_changes': third['diff'],
+                        'statuses_of_four_repeats': sts,
+                        'fourth_repeat_changes': third['diff'],
                         'fresh_instance_status': b['status']})
